@@ -1,6 +1,9 @@
 use crate::function::InnerFunctionManager;
 use crate::operator::{InfixOpManager, PostfixOpManager, PrefixOpManager};
+#[cfg(not(feature = "verif_sim"))]
 use once_cell::sync::OnceCell;
+#[cfg(feature = "verif_sim")]
+use crate::verif_sync::OnceCell;
 
 pub fn init() {
     static INITED: OnceCell<()> = OnceCell::new();
